@@ -50,10 +50,25 @@ def rule_project_wrap(rep, fb, floor=30):
             if len(miss) < len(missing):
                 missing = miss
             tname = str(n[1])
-            if not miss and (tname == "?" or f["cls"].replace("Of", "") in tname):
+            if not miss and (tname == "?" or (f["cls"][:-2] if f["cls"].endswith("Of") else f["cls"]) in tname):
                 ok = True
         r.check(ok, key + ":rebuild", where, "%s::%s does not rebuild a %s with members %s unchanged (missing %s)" % (f["cls"], f["name"], f["cls"], sf, missing),
                 detail="rebuilds %s(%s, content->%s(%s))" % (f["cls"], ", ".join(sf), f["name"], keyp))
+    return r.done()
+
+
+def rule_record_project_length(rep, fb):
+    r = rep.rule("RECORD.project-length", "RecordArray::getitem_fields (projection onto a list of fields) rebuilds the RecordArray with its own length_ passed explicitly: "
+                 "the number of records does not depend on which (or how many) fields are kept, nor on contents being longer than the record array", floor=2)
+    n = 0
+    for f in fb.lib_funcs():
+        if f["cls"] != "RecordArray" or f["name"] != "getitem_fields":
+            continue
+        for node in find_all(f["body"], lambda k: k[0] in ("make", "ctor") and len(k) >= 3 and str(k[1]).replace("const ", "").strip() == "RecordArray" and len(k[2]) >= 3):
+            n += 1
+            ok = any(a == ("member", ("this",), "length_") for a in node[2])
+            r.check(ok, "RecordArray::getitem_fields/%d#%d" % (len(f["params"]), n), "%s:%d" % (f["file"], node[-1] if isinstance(node[-1], int) else f["line"]),
+                    "RecordArray::getitem_fields rebuilds the record array without its own length_: the result's length becomes the shortest selected content (0 for an empty key list)", detail="length_ passed")
     return r.done()
 
 
